@@ -38,9 +38,6 @@ func checkC04(e *RunEnv) *CheckResult {
 	if !e.Thorough() {
 		singles = singles[:len(singles)-3] // quick: without the last three un-normalised spellings
 	}
-	if e.Thorough() {
-		singles = append(spellings, singles...)
-	}
 	var argLists [][]string
 	for _, s := range singles {
 		argLists = append(argLists, []string{s})
@@ -61,7 +58,15 @@ func checkC04(e *RunEnv) *CheckResult {
 		Steps: func(n *Node) []Step {
 			a := n.Abs()
 			var steps []Step
-			for _, al := range argLists {
+			als := argLists
+			if e.Thorough() && n.Depth <= 1 {
+				// thorough: the spelling variants in every state near the seeds as well (quick: as cases, below)
+				als = append([][]string{}, argLists...)
+				for _, sp := range spellings {
+					als = append(als, []string{sp})
+				}
+			}
+			for _, al := range als {
 				t := pathArgTags(a, al)
 				steps = append(steps, Run(append([]string{"add"}, al...)...).WithTags(t...))
 				steps = append(steps, Run(append([]string{"rm"}, al...)...).WithTags(t...))
